@@ -84,7 +84,7 @@ def check(repo: Repo, rep: Report) -> None:
     mod = repo.mod(ARRAY)
     rep.saw(ARRAY)
     vocabulary(repo, rep)
-    range_size(repo, rep)
+    range_size_decide(repo, rep)
     gather(repo, rep)
     grid(repo, rep)
     rep.floor("SLC-G", 6)
@@ -121,6 +121,82 @@ def vocabulary(repo: Repo, rep: Report) -> None:
             rep.undecide("SLC-V", "loop in the slice normaliser")
     if okay:
         rep.ok("SLC-V", f"_parse_range: {n} comparison operands, all unit-coefficient linear in start/stop/size; only +/- arithmetic")
+
+
+class _Buffer:
+    def __init__(self, rep: Report):
+        self.rep = rep
+        self.oks: List[Tuple[tuple, dict]] = []
+        self.finds: List[tuple] = []
+        self.undec: List[tuple] = []
+
+    def __getattr__(self, name: str) -> Any:
+        return getattr(self.rep, name)
+
+    def ok(self, *a: Any, **k: Any) -> None:
+        self.oks.append((a, k))
+
+    def finding(self, *a: Any, **k: Any) -> None:
+        self.finds.append(a)
+
+    def undecide(self, *a: Any) -> None:
+        self.undec.append(a)
+
+
+def range_size_decide(repo: Repo, rep: Report) -> None:
+    """SLC-2 by entailment when `_range_size` is written as a case split on the sign of step with ceiling divisions (all
+    integers); otherwise by evaluating it on a grid of (start, stop, step) against len(range(...)) (steps up to +-4 only:
+    weaker, said so in the evidence).  A violation needs a grid witness."""
+    buf = _Buffer(rep)
+    range_size(repo, buf)  # type: ignore[arg-type]
+    if not buf.finds and not buf.undec:
+        for a, k in buf.oks:
+            rep.ok(*a, **k)
+        return
+    mod = repo.mod(ARRAY)
+    fn = mod.func("_range_size")
+    w = make_world(repo)
+    bad = None
+    n = 0
+    try:
+        for st in range(-4, 5):
+            for a_ in range(-6, 7):
+                for b_ in range(-6, 7):
+                    n += 1
+                    w.ev.steps = 0
+                    got = _call(lambda: w.call("_range_size", a_, b_, st))
+                    want = ("raise", "ValueError") if st == 0 else ("ok", len(range(a_, b_, st)))
+                    if got != want:
+                        bad = (a_, b_, st, got, want)
+                        break
+                if bad:
+                    break
+            if bad:
+                break
+    except Undecided as ex:
+        rep.undecide("SLC-2", f"_range_size is not in the catalogued form ({'; '.join(str(f[4]) for f in buf.finds)[:200]}) and cannot be evaluated: {ex}")
+        return
+    if bad:
+        rep.finding("SLC-2", ARRAY, "_range_size", "length of a slice",
+                    f"_range_size({bad[0]}, {bad[1]}, {bad[2]}) gives {bad[3]}, the number of indices of range({bad[0]}, {bad[1]}, {bad[2]}) is {bad[4]}", fn.lineno)
+        for f in buf.finds:
+            rep.finding(*f)
+        return
+    # vocabulary: additions, negations, floor division / modulo, comparisons, min/max/abs - no other calls, no constants beyond -1, 0, 1
+    odd = []
+    for node in ast.walk(fn):
+        if isinstance(node, ast.Call) and dotted(node.func) not in ("ValueError", "min", "max", "abs", "len", "range", "divmod"):
+            odd.append(norm(node))
+        if isinstance(node, ast.Constant) and isinstance(node.value, int) and not isinstance(node.value, bool) and abs(node.value) > 1:
+            odd.append(repr(node.value))
+        if isinstance(node, ast.BinOp) and not isinstance(node.op, (ast.Add, ast.Sub, ast.FloorDiv, ast.Mod, ast.Mult)):
+            odd.append(norm(node))
+    if odd:
+        rep.undecide("SLC-2", f"_range_size is not in the catalogued form and uses {odd[:3]}: the grid does not generalise")
+        return
+    rep.info("SLC-2: _range_size is not written as the catalogued sign split; decided on the grid start, stop in [-6, 6], step in [-4, 4] "
+             "against len(range()) instead of for all integers")
+    rep.ok("SLC-2", f"_range_size == len(range(start, stop, step)) on {n} grid points, zero step raises ValueError (uncatalogued form)", points=n)
 
 
 def range_size(repo: Repo, rep: Report) -> None:
